@@ -9,6 +9,7 @@ import (
 	"math/big"
 	"os"
 	"strings"
+	"sync"
 
 	"golang.org/x/tools/go/ssa"
 
@@ -442,6 +443,24 @@ func init() {
 		sortStrings(names)
 		return strsValue(names)
 	})
+	// PacedClock(maxStepNs): from now on two consecutive clock readings differ by at most
+	// maxStepNs unless a Pause lies between them. Pause(ns): the clock jumps by ns..2ns.
+	reg(zz+"PacedClock", func(fr *frame, args []value) value {
+		fr.i.ps.clockMaxStep = uint64(args[0].(int64))
+		return nil
+	})
+	reg(zz+"Pause", func(fr *frame, args []value) value {
+		ps := fr.i.ps
+		ns := uint64(args[0].(int64))
+		t := ps.fresh("clock", term.BV(64))
+		fr.assume(term.BVCmp("bvult", t, term.BVConstU(1<<60, 64)))
+		if ps.lastClock != nil {
+			fr.assume(term.BVCmp("bvuge", t, term.BVBin("bvadd", ps.lastClock, term.BVConstU(ns, 64))))
+			fr.assume(term.BVCmp("bvule", t, term.BVBin("bvadd", ps.lastClock, term.BVConstU(2*ns, 64))))
+		}
+		ps.lastClock = t
+		return nil
+	})
 	reg(zz+"HashForkOff", func(fr *frame, args []value) value {
 		fr.i.ps.NoHashFork = true
 		return nil
@@ -574,27 +593,63 @@ func init() {
 		i := args[0].(int)
 		out := append([]value{}, strToBytes("zzsig")...)
 		out = append(out, uint8(i))
-		return append(out, args[1].([]value)...)
-	})
-	// recoverSignAddress(sig, digest): the signer's address for a harness signature over
-	// exactly this digest; an unrelated address for a signature over another digest; an error
-	// for bytes that are no harness signature.
-	reg("github.com/meshplus/bitxhub/pkg/proof.recoverSignAddress", func(fr *frame, args []value) value {
-		sig, dig := args[0].([]value), args[1].([]value)
-		pre, ok := concBytes(sig[:minInt(len(sig), 6)])
-		if !ok || len(sig) < 6 || string(pre[:5]) != "zzsig" {
-			return tuple{(*value)(nil), errorValue(fr, "recover public key failed: invalid signature")}
+		out = append(out, args[1].([]value)...)
+		for len(out) < 65 {
+			out = append(out, uint8(0))
 		}
-		i := int(pre[5])
-		same := strEqTerm(fr, bytesToStr(sig[6:]), bytesToStr(dig))
+		return out
+	})
+	// Signature model at the level of bitxhub-kit's ecdsa package, so that bitxhub's own
+	// recoverSignAddress is interpreted: a harness signature is the 65-byte token
+	// "zzsig" i digest[32] 0..., recovery yields the 65-byte model key "\x04zzpub" i 0... for
+	// exactly that digest, an unrelated model key for another digest, and an error for any
+	// other byte string (wrong length: the real length error; right length: "recovery failed").
+	const kit = "github.com/meshplus/bitxhub-kit/crypto/asym/ecdsa."
+	reg(kit+"Ecrecover", func(fr *frame, args []value) value {
+		dig, sig := args[0].([]value), args[1].([]value)
+		if len(sig) != 65 {
+			return tuple{[]value(nil), errorValue(fr, "invalid signature length")}
+		}
+		pre, ok := concBytes(sig[:6])
+		if !ok || string(pre[:5]) != "zzsig" {
+			return tuple{[]value(nil), errorValue(fr, "recovery failed")}
+		}
+		id := pre[5]
+		same := strEqTerm(fr, bytesToStr(sig[6:38]), bytesToStr(dig))
+		if !fr.decide(same) || int(id) >= len(zzSignerAddrs) {
+			id = 0xff
+		}
+		pub := make([]byte, 65)
+		copy(pub, "\x04zzpub")
+		pub[6] = id
+		return tuple{bytesValue(pub), nilError()}
+	})
+	reg(kit+"UnmarshalPublicKey", func(fr *frame, args []value) value {
+		data := args[0].([]value)
+		pre, ok := concBytes(data[:minInt(len(data), 7)])
+		if !ok || len(data) != 65 || string(pre[:6]) != "\x04zzpub" {
+			return tuple{iface{}, errorValue(fr, "invalid secp256k1 public key")}
+		}
+		t := fr.i.prog.ImportedPackage("github.com/meshplus/bitxhub-kit/crypto/asym/ecdsa").Type("PublicKey").Type()
+		cell := zero(t)
+		modelPubKeys.Store(&cell, int(pre[6]))
+		return tuple{iface{types.NewPointer(t), &cell}, nilError()}
+	})
+	reg("(*github.com/meshplus/bitxhub-kit/crypto/asym/ecdsa.PublicKey).Address", func(fr *frame, args []value) value {
+		id, ok := modelPubKeys.Load(args[0].(*value))
+		if !ok {
+			panic(&abortPath{Kind: "unsupported", Reason: "(*ecdsa.PublicKey).Address on a key that is not a harness model key"})
+		}
 		addr := "0x00000000000000000000000000000000DeaDBeef"
-		if fr.decide(same) && i < len(zzSignerAddrs) {
+		if i := id.(int); i < len(zzSignerAddrs) {
 			addr = zzSignerAddrs[i]
 		}
 		f := fr.i.prog.ImportedPackage("github.com/meshplus/bitxhub-kit/types").Func("NewAddressByStr")
 		return tuple{call(fr.i, fr, token.NoPos, f, []value{addr}), nilError()}
 	})
 }
+
+var modelPubKeys sync.Map // *value (model PublicKey cell) -> signer id
 
 func minInt(a, b int) int {
 	if a < b {
